@@ -28,7 +28,9 @@ LEVEL_TEXT = ('For delete, replace, insert, enumerate, append, limit_iterable '
 LEVEL_NOTE = ('T-lazy: map, filter, itertools.* pull on demand, at most one '
               'element ahead. Pipelines are covered compositionally (each '
               'operator adds at most its own look-ahead), not as wholes. '
-              'selectMany, distinct, zip, accumulate, join are covered by '
+              'join\'s outer side: pulls[k] is the row that produced '
+              'the k-th result (nested loop invariants). '
+              'selectMany, distinct, zip, accumulate are covered by '
               'the flow obligation only.')
 
 STREAMING = ['select', 'where', 'select_many', 'skip', 'limit', 'take_while',
@@ -118,6 +120,8 @@ def units(ctx):
            for c in cc.wrapper_contracts() if 'C14' in c.serves]
     us += [contract_unit(c, world_setup=cc.setup_mem)
            for c in cc.memorize_contracts()]
+    us += [contract_unit(c, world_setup=cc.setup_mem)
+           for c in cc.join_contracts()]
     us += pyvc_units(utils.contracts(), 'C14', utils.setup)
     us += pyvc_units(yaqltypes.contracts(), 'C14', yaqltypes.setup)
     from contracts import utils as _ut
